@@ -173,6 +173,11 @@ impl BinaryOperator {
                 }
             }
             Expression::Unary(_) => self.precedes_unary_expression(),
+            // a negative number is written with a leading minus sign, which binds like
+            // a unary operator (`-1 ^ 2` is `-(1 ^ 2)`)
+            Expression::Number(number) => {
+                number.compute_value().is_sign_negative() && self.precedes_unary_expression()
+            }
             Expression::If(_) => true,
             _ => false,
         };
